@@ -1,8 +1,11 @@
 #![allow(dead_code)]
+mod absty;
 mod gen;
 mod hash;
 mod leb;
 mod principal;
+mod proj;
+mod sub;
 mod util;
 
 fn main() {
@@ -13,6 +16,7 @@ fn main() {
     match args[0].as_str() {
         "leb" => leb::run(&o),
         "hash" => hash::run(&o),
+        "sub" => sub::run(&o),
         "principal" => principal::run(&o),
         m => { eprintln!("usage: unknown mode {m}"); std::process::exit(2); }
     }
